@@ -115,3 +115,36 @@ Theorem C16_clean_close_keeps_peer_refuted :
   map (fun c => (c_rd c, c_wr c)) (w_conns (snd (WorldStreamDefs.wrun (WorldStreamDefs.attached PULL [0]) WorldErrors.we_clean))) = [(false, true)].
 Proof. exact WorldErrors.world_clean_close_keeps_peer. Qed.
 Print Assumptions C16_clean_close_keeps_peer_refuted.
+
+(** * Write failures on the sending paths, over connections that answer each write from a script
+      (Model/RrSend.v: PUSH / DEALER round robin; Model/DirSend.v: ROUTER, REQ) *)
+From ZV Require Import Model.TrySend Model.RrSend Model.DirSend Proofs.RrSendProofs Proofs.DirSendProofs.
+
+(** once the socket has let go of a connection - for whatever reason - nothing is ever routed to it again, it stays
+    released and its wire does not change, whatever happens afterwards *)
+Theorem C16_rr_gone_never_targeted : forall ops st rs st' k,
+  pget k (r_peers st) = None -> ~ In k (attached ops) -> rrun st ops = (rs, st') ->
+  (forall r, In r rs -> targets k r = false) /\ pget k (r_peers st') = None /\ wire_of k st' = wire_of k st.
+Proof. exact gone_never_targeted. Qed.
+Print Assumptions C16_rr_gone_never_targeted.
+
+Theorem C16_rr_failed_never_targeted : forall st m k e st1 ops rs st2,
+  NoDup (map p_id (r_peers st)) -> NoDup (r_rr st) ->
+  RrSend.send st m = (RErr k e, st1) -> ~ In k (attached ops) -> rrun st1 ops = (rs, st2) ->
+  (forall r, In r rs -> targets k r = false) /\ pget k (r_peers st2) = None /\ wire_of k st2 = wire_of k st1.
+Proof. exact failed_never_targeted. Qed.
+Print Assumptions C16_rr_failed_never_targeted.
+
+(** ROUTER: a failed write forgets the peer; the next message for it is refused and writes nothing *)
+Theorem C16_router_err_forgets : forall st k m k' e st', send_to st k m = (RErr k' e, st') ->
+  NoDup (map p_id (r_peers st)) ->
+  k' = k /\ pget k (r_peers st') = None /\ forall m2, send_to st' k m2 = (RNoPeer, st').
+Proof. exact send_to_err_forgets. Qed.
+Print Assumptions C16_router_err_forgets.
+
+(** REQ: a failed request forgets the server and leaves the socket owing nothing *)
+Theorem C16_req_err_forgets : forall q m k e q', req_send q m = (QErr k e, q') ->
+  NoDup (map p_id (r_peers (q_base q))) ->
+  pget k (r_peers (q_base q')) = None /\ q_cur q' = None.
+Proof. exact req_err_forgets. Qed.
+Print Assumptions C16_req_err_forgets.
